@@ -27,7 +27,8 @@ VS_ANS = ['1', '1', '1', '0', '0', 'A', 'S', 'E']
 
 def gen(rng, tier, i):
     p = Plan()
-    p.file('mcfg.h', mcfg({'NO_VALID_SETEUID': 1} if rng.random() < 0.06 else {}))
+    r0 = rng.random()
+    p.file('mcfg.h', mcfg({'NO_VALID_SETEUID': 1} if r0 < 0.06 else ({'VALID_OBJECT_UIDS': 1} if r0 < 0.3 else {})))
     p.cfg('Port', '4000:telnet')
     p.cfg('MaxEvaluationCost', 2000000)
     cf = []
